@@ -49,6 +49,9 @@ type nodeMon struct {
 	leadTerm  uint64
 	leadStart int
 	heard     map[uint64]int
+	// the same without the restart of the window by a leadership-transfer request (finding F13)
+	rawStart int
+	rawHeard map[uint64]int
 }
 
 type Monitors struct {
@@ -525,6 +528,7 @@ func (m *Monitors) beforeStep(n *Node, msg *pb.Message) {
 	}
 	if x := m.node(n); x.heard != nil && msg.GetFrom() != 0 && msg.GetFrom() != n.id && !raft.IsLocalMsg(msg.GetType()) {
 		x.heard[msg.GetFrom()] = x.ticks
+		x.rawHeard[msg.GetFrom()] = x.ticks
 	}
 	m.stepMsg = msg
 	d := n.rn.VerifState()
@@ -795,6 +799,7 @@ func (m *Monitors) afterOp(n *Node, kind string) {
 		// restarts the timer)
 		if x.leadTerm != d.Term || x.heard == nil {
 			x.leadTerm, x.leadStart, x.heard = d.Term, x.ticks, map[uint64]int{}
+			x.rawStart, x.rawHeard = x.ticks, map[uint64]int{}
 		}
 		// a member added to the configuration is presumed active for its first window
 		// (initProgress sets RecentActive), like a peer heard from at that moment
@@ -802,14 +807,18 @@ func (m *Monitors) afterOp(n *Node, kind string) {
 			for id := range d.Progress {
 				if _, ok := prev.Progress[id]; !ok {
 					x.heard[id] = x.ticks
+					x.rawHeard[id] = x.ticks
 				}
 			}
 		}
 		// a change of the voter sets changes what a quorum is: restart the window
 		if prev != nil && cfgStr(prev.Config) != cfgStr(d.Config) {
 			x.leadStart = x.ticks
+			x.rawStart = x.ticks
 		}
-		if kind == "transfer" {
+		// a leadership-transfer request that the leader accepts restarts its election timer
+		// (TransferLeader, or a MsgTransferLeader forwarded by a follower)
+		if kind == "transfer" || (kind == "step" && m.stepMsg != nil && m.stepMsg.GetType() == pb.MsgTransferLeader) {
 			x.leadStart = x.ticks
 			for k := range x.heard {
 				x.heard[k] = x.ticks
@@ -826,6 +835,20 @@ func (m *Monitors) afterOp(n *Node, kind string) {
 			}
 			if !jointQuorum(d.Config, recent) {
 				m.report("C17", "", "leader %d of term %d is still leader %d ticks after it last heard from a quorum (election timeout %d)", n.id, d.Term, 2*n.cfg.ET+1, n.cfg.ET)
+			}
+		}
+		if n.cfg.CheckQuorum && kind == "tick" && x.ticks-x.rawStart > 2*n.cfg.ET {
+			// the property as written, with no allowance for transfer requests (F13)
+			recent := func(id uint64) bool {
+				if id == n.id {
+					return true
+				}
+				t, ok := x.rawHeard[id]
+				return ok && x.ticks-t <= 2*n.cfg.ET
+			}
+			if !jointQuorum(d.Config, recent) {
+				m.hit("C17.transfer-restarted-timer")
+				m.report("C17", "transfer-restarts-timer", "leader %d is still leader more than two election timeouts after it last heard from a quorum: a leadership-transfer request restarted its election timer", n.id)
 			}
 		}
 	} else if x.heard = nil; d.Committed > m.maxLeaderCommit && kind != "new" {
